@@ -17,7 +17,11 @@ import hashlib
 import os
 import re
 import concurrent.futures as cf
+import sys
 import vf
+
+sys.path.insert(0, os.path.join(vf.VERIF, "extract"))
+import c2lean  # noqa: E402
 
 PID = "C16"
 PROP_MODULES = ["UsualProofs.Props.C16"]
@@ -159,7 +163,8 @@ def build(ck):
     ck.forbid_scan()
     extract_crc_tab(ck)
     extract_consts(ck)
-    ck.build_proofs(PROP_MODULES, driver="drv_c16")
+    # T-tie: siphash/lookup3 round macros + crc32 re-translated (Gen/C16T.lean), Bridge/C16T.lean re-checked
+    ck.build_proofs(PROP_MODULES + c2lean.ttie(ck, vf, PID), driver="drv_c16")
     hdir = os.path.join(vf.HARNESS, PID)
     # /repo's configuration (x86: WORDS_UNALIGNED_ACCESS_OK) makes spooky.c read uint64_t
     # through unaligned pointers on purpose; only that object is built without the UBSan
